@@ -15,7 +15,7 @@ EXTENDS OptionFlowDef
 CONSTANTS Dev
 
 Variants == {"sift", "ensemble_sift", "complete_ensemble_sift", "mask_sift", "sift_second_layer", "mask_sift_second_layer"}
-Routes == {"kwargs", "config", "partial"}
+Routes == {"kwargs", "config", "partial", "partial_after_edit"}   \* the last: get_func() taken again after nested edits on the same object
 Groups == {"imf", "env", "ext"}
 Tok == {"user", "default"}
 
